@@ -673,6 +673,7 @@ func genRpcSchedule(r interface {
 			// a batch: optionally re-sends some already synced entries, then new ones; sometimes entries of
 			// another cluster are mixed in; sometimes one NEW entry carries a wrong RaftTimestamp
 			from := cur[c]
+			cur0 := cur[c]
 			if from > 0 && r.Chance(0.5) {
 				from -= 1 + r.Pick(minInt(from, 3))
 			}
@@ -699,6 +700,11 @@ func genRpcSchedule(r interface {
 				if class == "any" && r.Chance(0.1) && pos+1 < to {
 					pos++ // the sender jumps over an entry
 				}
+			}
+			if !stop && cur[c] > cur0 && cur0 > 0 && r.Chance(0.5) {
+				// the request ENDS with an entry the receiver already has (a re-sent log behind new ones)
+				e := src[c][r.Pick(cur0)]
+				ents = append(ents, fmt.Sprintf("%d.%d.%d.%d.%d.-", e.c, e.t, e.i, e.ts, e.p))
 			}
 			if len(ents) > 0 {
 				ops = append(ops, "B:"+strings.Join(ents, ":"))
@@ -731,8 +737,13 @@ func genRpcSchedule(r interface {
 	if class == "ord" || class == "snap" {
 		for c := 1; c <= k; c++ {
 			var ents []string
+			cur0 := cur[c]
 			for ; cur[c] < len(src[c]); cur[c]++ {
 				e := src[c][cur[c]]
+				ents = append(ents, fmt.Sprintf("%d.%d.%d.%d.%d.-", e.c, e.t, e.i, e.ts, e.p))
+			}
+			if len(ents) > 0 && cur0 > 0 {
+				e := src[c][r.Pick(cur0)] // the closing request ends with an already received log
 				ents = append(ents, fmt.Sprintf("%d.%d.%d.%d.%d.-", e.c, e.t, e.i, e.ts, e.p))
 			}
 			if len(ents) > 0 {
